@@ -518,8 +518,10 @@ func (e *Engine) VirtualizationUpdateResource(ctx context.Context, ID string, en
 	quota := resourceOpts.Quota
 	cpuMap := resourceOpts.CPU
 	numaNode := resourceOpts.NUMANode
-	// unlimited cpu
-	if quota == 0 || len(cpuMap) == 0 {
+	remap := resourceOpts.Remap
+	// no cpu binding: run on all cores. The cpuset filled in here is a pool, not a binding,
+	// so the workload keeps its quota (a bound workload keeps its own cores and NUMA node)
+	if len(cpuMap) == 0 {
 		info, err := e.Info(ctx) // TODO can fixed in docker engine, support empty Cpusetcpus, or use cache to speed up
 		if err != nil {
 			return err
@@ -528,13 +530,15 @@ func (e *Engine) VirtualizationUpdateResource(ctx context.Context, ID string, en
 		for i := 0; i < info.NCPU; i++ {
 			cpuMap[strconv.Itoa(i)] = int64(e.config.Scheduler.ShareBase)
 		}
-		if quota == 0 {
-			quota = -1
-			numaNode = ""
-		}
+		numaNode = ""
+		remap = true
+	}
+	// unlimited cpu
+	if quota == 0 {
+		quota = -1
 	}
 
-	newResource := makeResourceSetting(quota, memory, cpuMap, numaNode, resourceOpts.IOPSOptions, resourceOpts.Remap)
+	newResource := makeResourceSetting(quota, memory, cpuMap, numaNode, resourceOpts.IOPSOptions, remap)
 	updateConfig := dockercontainer.UpdateConfig{Resources: newResource}
 	_, err := e.client.ContainerUpdate(ctx, ID, updateConfig)
 	return err
